@@ -103,7 +103,7 @@ def main(argv=None):
     ap.add_argument("--replay")
     a = ap.parse_args(argv)
     try:
-        rc, ctx, new, old = run_property(a.prop.upper(), a.tier, a.replay)
+        rc, ctx, new, old = run_property(a.prop.upper(), a.tier, a.replay, write=not os.environ.get("MSA_NO_EVIDENCE"))
         if a.tier == "thorough" and not a.replay:
             from . import selftest
             rc2 = selftest.run(a.prop.upper())
